@@ -1,6 +1,6 @@
 (* C11 — proofs about Model/C11AuthZ.v *)
 From Coq Require Import ZArith List Bool Lia Arith.
-From V Require Import Bytes StrGo BytesLemmas C16PathMatch C16PathMatchProofs C11AuthZ.
+From V Require Import Bytes StrGo BytesLemmas CanonProofs C16PathMatch C16PathMatchProofs C11AuthZ.
 Import ListNotations.
 Open Scope Z_scope.
 
@@ -1521,3 +1521,163 @@ Definition cred_bob : cred := CDigest (bs "bob") (bs "pb") 0 0.
 Definition inside_evs : list event :=
   [ERtspOpen; ERtsp 0 M_DESCRIBE (bs "/a/c/..//B/.") cred_bob; ERtsp 0 M_DESCRIBE (bs "/a/../x") cred_bob;
    ERtsp 0 M_DESCRIBE (bs "/a/%2e%2e/x") cred_bob].
+
+
+(* ------------------------------------------------------------------ *)
+(* L. CanonicalPath is idempotent (CanonProofs, /repo 1c2de2b): the guard ev_ok holds in every reachable state *)
+
+Lemma blist_eqb_refl l : blist_eqb l l = true.
+Proof. induction l as [|x l IH]; simpl; [reflexivity|]. rewrite bytes_eqb_refl. exact IH. Qed.
+
+(* a canonical path is read the same way by the pattern language and by the registry *)
+Lemma path_ok_canon x : path_ok (canonical_path x) = true.
+Proof. unfold path_ok, served_key, same_segs. rewrite canonical_path_idem. apply blist_eqb_refl. Qed.
+
+Lemma path_ok_nil : path_ok [] = true.
+Proof. vm_compute. reflexivity. Qed.
+
+Definition conn_settled (c : conn) : Prop := path_ok (c_path c) = true /\ path_ok (c_wspath c) = true.
+Definition conns_settled (s : state) : Prop := Forall conn_settled (conns s).
+
+Lemma get_conn_settled s k : conns_settled s -> conn_settled (get_conn s k).
+Proof.
+  intros H. unfold get_conn. destruct (nth_in_or_default k (conns s) dead_conn) as [Hin|Hd].
+  - eapply Forall_forall in H; eauto.
+  - rewrite Hd. split; exact path_ok_nil.
+Qed.
+
+Lemma rtsp_handle_paths ws pm r self c m path c2 code pub :
+  rtsp_handle ws pm r self c m path = (c2, code, pub) ->
+  c_wspath c2 = c_wspath c /\ (c_path c2 = c_path c \/ c_path c2 = canonical_path path).
+Proof.
+  intros H. unfold rtsp_handle in H. break_hyp H; inversion H; subst; cbn; auto.
+Qed.
+
+Lemma conn_settled_nonce c a b : conn_settled c -> conn_settled (set_nonce c a b).
+Proof. intros H. exact H. Qed.
+
+Lemma step_conns_settled w s ev : conns_settled s -> conns_settled (fst (step w s ev)).
+Proof.
+  intros H. destruct ev; unfold step; cbn [step_gen]; try exact H.
+  - unfold step_login. break_step; simpl; exact H.
+  - unfold step_refresh. destruct (is_none t); [exact H|].
+    assert (Hc : conns (fst (refresh s t)) = conns s) by (unfold refresh; break_step; reflexivity).
+    destruct (refresh s t) as [s1 ok]. simpl in *. unfold conns_settled. rewrite Hc. exact H.
+  - unfold conns_settled. simpl. apply Forall_app. split; [exact H|]. constructor; [|constructor].
+    split; exact path_ok_nil.
+  - unfold step_rtsp. set (c := get_conn s k). pose proof (get_conn_settled s k H) as Hc. fold c in Hc.
+    destruct (c_kind c =? K_RTSP); cbn [negb]; [|exact H].
+    destruct (legal (c_status c) m); cbn [negb].
+    + destruct (digest_check true (users s) c cr) as [[uname|] rot].
+      * destruct (rtsp_handle false _ _ _ c m path) as [[c2 code] pub] eqn:Eh.
+        apply rtsp_handle_paths in Eh. destruct Eh as (E1 & E2).
+        unfold conns_settled. simpl. apply Forall_set_nth; [exact H|].
+        destruct Hc as [Hp Hw]. split; cbn.
+        -- destruct E2 as [E2|E2]; rewrite E2; [exact Hp|apply path_ok_canon].
+        -- rewrite E1. exact Hw.
+      * unfold conns_settled. simpl. apply Forall_set_nth; [exact H|]. destruct rot; exact Hc.
+    + unfold conns_settled. simpl. apply Forall_set_nth; [exact H|]. exact Hc.
+  - unfold step_wsopen. destruct (negb (mux_ok (ws_url kind path))).
+    { destruct ((kind =? 0) || (kind =? 1)); [|exact H].
+      unfold conns_settled. simpl. apply Forall_app. split; [exact H|]. constructor; [|constructor].
+      split; exact path_ok_nil. }
+    unfold step_wsopen_in, url_path.
+    destruct (stream_gate true s t (canonical_path path) None hdrs) as [code uname].
+    destruct (negb (code =? 200)).
+    + destruct ((kind =? 0) || (kind =? 1)); [|exact H].
+      unfold conns_settled. simpl. apply Forall_app. split; [exact H|]. constructor; [|constructor].
+      split; exact path_ok_nil.
+    + destruct (kind =? 0).
+      { unfold conns_settled. simpl. apply Forall_app. split; [exact H|]. constructor; [|constructor].
+        split; apply path_ok_canon. }
+      destruct (kind =? 1).
+      { unfold conns_settled. simpl. apply Forall_app. split; [exact H|]. constructor; [|constructor].
+        split; apply path_ok_canon. }
+      destruct (kind =? 2); [|exact H].
+      destruct (_ && _); [|exact H].
+      unfold conns_settled. simpl. apply Forall_set_nth; [exact H|]. exact (get_conn_settled s chan H).
+  - unfold step_wsrtsp. set (c := get_conn s k). pose proof (get_conn_settled s k H) as Hc. fold c in Hc.
+    destruct (c_kind c =? K_WSRTSP); cbn [negb]; [|exact H].
+    destruct (legal (c_status c) m); cbn [negb]; [|exact H].
+    destruct (rtsp_handle true _ _ _ c m path) as [[c2 code] pub] eqn:Eh.
+    apply rtsp_handle_paths in Eh. destruct Eh as (E1 & E2).
+    unfold conns_settled. simpl. apply Forall_set_nth; [exact H|].
+    destruct Hc as [Hp Hw]. split.
+    + destruct E2 as [E2|E2]; rewrite E2; [exact Hp|apply path_ok_canon].
+    + rewrite E1. exact Hw.
+  - unfold step_wsp. set (c := get_conn s k). pose proof (get_conn_settled s k H) as Hc. fold c in Hc.
+    destruct (c_kind c =? K_WSP); cbn [negb]; [|exact H].
+    destruct (wsp_handle true _ _ c m) as [c2 code] eqn:Eh.
+    apply wsp_handle_frame in Eh. destruct Eh as (E1 & E2 & E3 & E4).
+    unfold conns_settled. simpl. apply Forall_set_nth; [exact H|].
+    destruct Hc as [Hp Hw]. split.
+    + destruct E4 as [E4|E4]; rewrite E4; assumption.
+    + rewrite E2. exact Hw.
+  - rewrite step_http_auth. exact H.
+  - unfold step_api. break_step; simpl; exact H.
+Qed.
+
+Lemma reachable_conns_settled w s : reachable w s -> conns_settled s.
+Proof. induction 1; [constructor|apply step_conns_settled; assumption]. Qed.
+
+Lemma rtsp_target_settled ws c m path : conn_settled c -> path_ok (snd (rtsp_target ws c m path)) = true.
+Proof.
+  intros [Hp Hw]. unfold rtsp_target.
+  repeat match goal with |- context [if ?b then (_, _) else _] => destruct b; cbn [snd] end;
+    try apply path_ok_canon; try exact Hp; destruct ws; try apply path_ok_canon; exact Hp.
+Qed.
+
+(* the guard is no guard: in every reachable state every event is inside the class the oracle is strict on *)
+Theorem ev_ok_reachable w s ev : reachable w s -> ev_ok s ev = true.
+Proof.
+  intros Hr. apply reachable_conns_settled in Hr. unfold ev_ok.
+  destruct ev; cbn [target snd]; try (rewrite path_ok_nil; reflexivity).
+  - rewrite (rtsp_target_settled false _ m path (get_conn_settled s k Hr)). reflexivity.
+  - rewrite path_ok_canon. cbn [andb]. destruct (kind =? 2); [|reflexivity].
+    exact (proj1 (get_conn_settled s chan Hr)).
+  - rewrite (rtsp_target_settled true _ m path (get_conn_settled s k Hr)). reflexivity.
+  - destruct (get_conn_settled s k Hr) as [Hp Hw]. destruct (m =? M_DESCRIBE); [rewrite Hw|rewrite Hp]; reflexivity.
+  - rewrite path_ok_canon. reflexivity.
+Qed.
+
+(* hence the served-resource theorems hold without the guard *)
+Theorem served_requires_permit_always w s ev :
+  reachable w s ->
+  let o := snd (step w s ev) in
+  is_request ev = true -> fst (target s ev) = APull ->
+  granted ev o = true -> keepalive s ev = false ->
+  exists u r, identity s ev = Some u /\ rights_now (users s) u = Some r /\
+              permits r PULL (served_key (snd (target s ev))) = true.
+Proof. intros Hr o Hq Ht Hg Hk. eapply served_requires_permit; eauto using ev_ok_reachable. Qed.
+
+Theorem published_requires_permit_always w s ev :
+  reachable w s ->
+  let o := snd (step w s ev) in
+  (match ev with ERtsp _ _ _ _ | EWsRtsp _ _ _ => True | _ => False end) ->
+  zlist_eqb (o_reg o) (reg_view w (reg s)) = false ->
+  exists u r, identity s ev = Some u /\ rights_now (users s) u = Some r /\
+              fst (target s ev) = APush /\ permits r PUSH (served_key (snd (target s ev))) = true.
+Proof. intros Hr o He Hd. eapply published_requires_permit; eauto using ev_ok_reachable. Qed.
+
+Theorem holder_of_served_not_refused_always w s ev :
+  reachable w s -> is_request ev = true ->
+  allowed s ev = true -> feasible w s ev = true ->
+  accepted ev (snd (step w s ev)) = true.
+Proof. intros Hr Hq Ha Hf. eapply holder_of_served_not_refused; eauto using ev_ok_reachable. Qed.
+
+(* the strict oracle (no exclusion) accepts the model on every history *)
+Lemma run_ok_strict_from w s evs : reachable w s -> ok_run_strict w s evs (run w s evs) = true.
+Proof.
+  revert s. induction evs as [|e evs IH]; intros s Hr; [reflexivity|].
+  unfold run in *. cbn [run_gen ok_run_strict].
+  pose proof (reachable_tok_inv _ _ Hr) as H. pose proof (reachable_conns_ok _ _ Hr) as Hok.
+  destruct (step_judged_served w s e H Hok) as [J1 J2].
+  unfold judge, judge_reg in J1, J2. rewrite (ev_ok_reachable w s e Hr) in J1, J2.
+  pose proof (reach_step w s e Hr) as Hr1. unfold step in *.
+  destruct (step_gen true w s e) as [s1 o] eqn:Es. cbn [ok_run_strict fst snd] in *.
+  rewrite J1, J2. cbn [andb]. apply IH. exact Hr1.
+Qed.
+
+Theorem model_passes_strict w users0 ext evs :
+  ok_run_strict w (state0 users0 ext) evs (run w (state0 users0 ext) evs) = true.
+Proof. apply run_ok_strict_from. apply reach_init. Qed.
